@@ -6,7 +6,8 @@
  *   R <pathhex> <o|-><s|-> [<namehex>[=<valhex>]] ...      register a resource ("-" = empty string)
  *   F <filterhex|->                                        full listing + all windows for this filter
  *   L <filterhex|->                                        full listing only
- *   G <szx> <filterhex|->                                  GET /.well-known/core[?filter] with Block2 SZX, reassemble
+ *   G <szx> <filterhex|-> [<filterhex|->]                 GET /.well-known/core[?filter] with Block2 SZX, reassemble; with a second filter: two
+ *                                                          fetches by the same peer at the same time, block by block in turn
  *   E
  */
 #include "simnet.h"
@@ -135,63 +136,86 @@ static void windows(const char *fh, int sweep) {
   free(big);
 }
 
-/* scripted client: GET /.well-known/core with Block2 NUM/SZX, over the simulator */
-static void block_get(int szx, const char *fh) {
-  uint8_t fb[256], body[1 << 16];
-  size_t fn = unhex(fh, fb, sizeof(fb)), blen = 0;
-  int hasf = strcmp(fh, "-") != 0, num = 0, more = 1, ok = 1, rounds = 0;
-  uint16_t mid = 100;
-  while (more && ok && rounds++ < 4096) {
-    uint8_t req[600];
-    size_t n = 0;
-    unsigned bv = ((unsigned)num << 4) | (unsigned)szx, delta;
-    req[n++] = 0x41; req[n++] = 0x01; req[n++] = mid >> 8; req[n++] = mid & 255; req[n++] = 0x77;
-    req[n++] = 0xbb; memcpy(req + n, ".well-known", 11); n += 11;     /* Uri-Path */
-    req[n++] = 0x04; memcpy(req + n, "core", 4); n += 4;
-    delta = 4;  /* Uri-Query 15 */
-    if (hasf) {
-      if (fn < 13) req[n++] = (uint8_t)((delta << 4) | fn);
-      else { req[n++] = (uint8_t)((delta << 4) | 13); req[n++] = (uint8_t)(fn - 13); }
-      memcpy(req + n, fb, fn); n += fn;
-      delta = 8;  /* Block2 23 */
-    } else
-      delta = 12;
-    if (bv < 256) { req[n++] = (uint8_t)((delta << 4) | 1); req[n++] = (uint8_t)bv; }
-    else if (bv < 65536) { req[n++] = (uint8_t)((delta << 4) | 2); req[n++] = (uint8_t)(bv >> 8); req[n++] = (uint8_t)bv; }
-    else { req[n++] = (uint8_t)((delta << 4) | 3); req[n++] = (uint8_t)(bv >> 16); req[n++] = (uint8_t)(bv >> 8); req[n++] = (uint8_t)bv; }
-    rxcount = 0;
-    sim_inject(&cli_addr, &srv_addr, req, n, 0, -1);
-    sim_run(sim_now + 50);
-    mid++;
-    if (rxcount != 1 || rxlen < 5) { ok = 0; break; }
-    {
-      /* parse the reply with libcoap's own parser (the codec is C03's concern) */
-      coap_pdu_t *p = coap_pdu_init(0, 0, 0, 4096);
-      coap_opt_iterator_t oi;
-      coap_opt_t *o;
-      size_t dl = 0;
-      const uint8_t *dp = NULL;
-      if (!coap_pdu_parse(COAP_PROTO_UDP, rxbuf, rxlen, p)) { ok = 0; coap_delete_pdu(p); break; }
-      if (coap_pdu_get_code(p) != COAP_RESPONSE_CODE_CONTENT) { ok = coap_pdu_get_code(p) == COAP_RESPONSE_CODE(400) && num > 0 ? 2 : 0; coap_delete_pdu(p); break; }
-      more = 0;
-      o = coap_check_option(p, COAP_OPTION_BLOCK2, &oi);
-      if (o) {
-        unsigned v = coap_decode_var_bytes(coap_opt_value(o), coap_opt_length(o));
-        more = (v >> 3) & 1;
-        if ((int)(v & 7) != szx || (int)(v >> 4) != num) ok = 0;
-      }
-      coap_get_data(p, &dl, &dp);
-      if (dl && blen + dl <= sizeof(body)) { memcpy(body + blen, dp, dl); blen += dl; }
-      if (more && dl != (size_t)(16u << szx)) ok = 0;
-      coap_delete_pdu(p);
+/* scripted client: GET /.well-known/core with Block2 NUM/SZX, over the simulator; one fetch is a little state machine so that two of them
+   (different filters, different tokens, same peer) can be interleaved block by block */
+typedef struct { uint8_t fb[256], body[1 << 16]; size_t fn, blen; int hasf, num, more, ok, szx; uint8_t tok; } bg_t;
+static uint16_t bg_mid = 100;
+static void bg_init(bg_t *g, int szx, const char *fh, uint8_t tok) {
+  g->fn = unhex(fh, g->fb, sizeof(g->fb)); g->blen = 0; g->hasf = strcmp(fh, "-") != 0; g->num = 0; g->more = 1; g->ok = 1; g->szx = szx; g->tok = tok;
+}
+static void bg_step(bg_t *g) {
+  uint8_t req[600];
+  size_t n = 0;
+  unsigned bv = ((unsigned)g->num << 4) | (unsigned)g->szx, delta;
+  uint16_t mid = bg_mid++;
+  if (!g->more || !g->ok) return;
+  req[n++] = 0x41; req[n++] = 0x01; req[n++] = mid >> 8; req[n++] = mid & 255; req[n++] = g->tok;
+  req[n++] = 0xbb; memcpy(req + n, ".well-known", 11); n += 11;     /* Uri-Path */
+  req[n++] = 0x04; memcpy(req + n, "core", 4); n += 4;
+  delta = 4;  /* Uri-Query 15 */
+  if (g->hasf) {
+    if (g->fn < 13) req[n++] = (uint8_t)((delta << 4) | g->fn);
+    else { req[n++] = (uint8_t)((delta << 4) | 13); req[n++] = (uint8_t)(g->fn - 13); }
+    memcpy(req + n, g->fb, g->fn); n += g->fn;
+    delta = 8;  /* Block2 23 */
+  } else
+    delta = 12;
+  if (bv < 256) { req[n++] = (uint8_t)((delta << 4) | 1); req[n++] = (uint8_t)bv; }
+  else if (bv < 65536) { req[n++] = (uint8_t)((delta << 4) | 2); req[n++] = (uint8_t)(bv >> 8); req[n++] = (uint8_t)bv; }
+  else { req[n++] = (uint8_t)((delta << 4) | 3); req[n++] = (uint8_t)(bv >> 16); req[n++] = (uint8_t)(bv >> 8); req[n++] = (uint8_t)bv; }
+  rxcount = 0;
+  sim_inject(&cli_addr, &srv_addr, req, n, 0, -1);
+  sim_run(sim_now + 50);
+  if (rxcount != 1 || rxlen < 5) { g->ok = 0; return; }
+  {
+    /* parse the reply with libcoap's own parser (the codec is C03's concern) */
+    coap_pdu_t *p = coap_pdu_init(0, 0, 0, 4096);
+    coap_opt_iterator_t oi;
+    coap_opt_t *o;
+    size_t dl = 0;
+    const uint8_t *dp = NULL;
+    coap_bin_const_t t;
+    if (!coap_pdu_parse(COAP_PROTO_UDP, rxbuf, rxlen, p)) { g->ok = 0; coap_delete_pdu(p); return; }
+    t = coap_pdu_get_token(p);
+    if (t.length != 1 || t.s[0] != g->tok) { g->ok = 0; coap_delete_pdu(p); return; }
+    if (coap_pdu_get_code(p) != COAP_RESPONSE_CODE_CONTENT) { g->ok = coap_pdu_get_code(p) == COAP_RESPONSE_CODE(400) && g->num > 0 ? 2 : 0; coap_delete_pdu(p); return; }
+    g->more = 0;
+    o = coap_check_option(p, COAP_OPTION_BLOCK2, &oi);
+    if (o) {
+      unsigned v = coap_decode_var_bytes(coap_opt_value(o), coap_opt_length(o));
+      g->more = (v >> 3) & 1;
+      if ((int)(v & 7) != g->szx || (int)(v >> 4) != g->num) g->ok = 0;
     }
-    num++;
+    coap_get_data(p, &dl, &dp);
+    if (dl && g->blen + dl <= sizeof(g->body)) { memcpy(g->body + g->blen, dp, dl); g->blen += dl; }
+    if (g->more && dl != (size_t)(16u << g->szx)) g->ok = 0;
+    coap_delete_pdu(p);
   }
-  fprintf(sim_trace, "{\"e\":\"Get\",\"szx\":%d,\"hasf\":%s,\"filter\":", szx, hasf ? "true" : "false");
-  arr(sim_trace, fb, fn);
-  fprintf(sim_trace, ",\"ok\":%d,\"blocks\":%d,\"body\":", ok, num);
-  arr(sim_trace, body, blen);
+  g->num++;
+}
+static void bg_log(bg_t *g) {
+  fprintf(sim_trace, "{\"e\":\"Get\",\"szx\":%d,\"hasf\":%s,\"filter\":", g->szx, g->hasf ? "true" : "false");
+  arr(sim_trace, g->fb, g->fn);
+  fprintf(sim_trace, ",\"ok\":%d,\"blocks\":%d,\"body\":", g->ok, g->num);
+  arr(sim_trace, g->body, g->blen);
   fputs("}\n", sim_trace);
+}
+static void block_get(int szx, const char *fh) {
+  static bg_t g;
+  int rounds = 0;
+  bg_init(&g, szx, fh, 0x77);
+  while (g.more && g.ok == 1 && rounds++ < 4096) bg_step(&g);
+  bg_log(&g);
+}
+/* two listings fetched at the same time by one peer, block by block in turn */
+static void block_get2(int szx, const char *fa, const char *fb2) {
+  static bg_t a, b;
+  int rounds = 0;
+  bg_init(&a, szx, fa, 0x71);
+  bg_init(&b, szx, fb2, 0x72);
+  while (((a.more && a.ok == 1) || (b.more && b.ok == 1)) && rounds++ < 4096) { bg_step(&a); bg_step(&b); }
+  bg_log(&a);
+  bg_log(&b);
 }
 
 int main(int argc, char **argv) {
@@ -234,7 +258,11 @@ int main(int argc, char **argv) {
         fprintf(sim_trace, "{\"e\":\"Table\",\"res\":[%s]}\n", tablejson);
       }
       if (line[0] == 'F' || line[0] == 'L') { sscanf(line + 1, "%4095s", f); windows(f, line[0] == 'F'); }
-      else { sscanf(line + 1, "%d %4095s", &szx, f); block_get(szx, f); }
+      else {
+        char f2[4096] = "";
+        int k = sscanf(line + 1, "%d %4095s %4095s", &szx, f, f2);
+        if (k == 3) block_get2(szx, f, f2); else block_get(szx, f);
+      }
     }
   }
   if (ctx) { sim_remove_node(ctx); coap_free_context(ctx); }
